@@ -279,7 +279,22 @@ fn run_case(c: &Case, rep: &mut Report) {
     let pages: Vec<Page<'static>> = c.pages.iter().map(|(w, h, b)| ctl::page_from_image(*w, *h, b.clone())).collect();
     // a third of the page lists reach send_pages as an adaptor iterator (a filter that keeps everything: its size_hint
     // has a lower bound of 0) instead of a slice
-    let out = if c.op == Op::SendPages && fnv(c.sig().as_bytes()) % 3 == 0 {
+    let out = if c.op == Op::SendPages && c.fail_attempts == 0 && c.nack.is_none() && !c.virtual_sign && c.prior.is_none() && fnv(c.sig().as_bytes()) % 5 == 1 {
+        // a page list that can be walked only once: a filter whose closure keeps its state OUTSIDE the iterator (the
+        // usual "skip what I have already seen" idiom), so that a clone of the iterator shares it. One attempt walks
+        // it once; what is sent and what is counted must come from that one walk.
+        rep.count("page_lists_that_can_be_walked_only_once");
+        let seen = std::cell::RefCell::new(std::collections::HashSet::new());
+        let r = crate::util::catch(std::panic::AssertUnwindSafe(|| sign.send_pages(pages.iter().filter(|p| seen.borrow_mut().insert(std::ptr::from_ref::<Page<'_>>(*p) as usize)))));
+        match r {
+            Ok(Ok(flipdot::PageFlipStyle::Automatic)) => SignOut::OkStyle { automatic: true },
+            Ok(Ok(flipdot::PageFlipStyle::Manual)) => SignOut::OkStyle { automatic: false },
+            Ok(Err(flipdot::SignError::Bus { source })) => SignOut::Bus(source.to_string()),
+            Ok(Err(flipdot::SignError::UnexpectedResponse { expected, actual })) => SignOut::Protocol { expected, actual },
+            Ok(Err(other)) => SignOut::Bus(format!("unmatched SignError variant: {:?}", other)),
+            Err(p) => SignOut::Panic(format!("{} at {}", p.msg, crate::util::short_loc(&p.loc))),
+        }
+    } else if c.op == Op::SendPages && fnv(c.sig().as_bytes()) % 3 == 0 {
         rep.count("page_lists_passed_as_adaptor_iterators");
         let r = crate::util::catch(std::panic::AssertUnwindSafe(|| sign.send_pages(pages.iter().filter(|p| p.width() < u32::MAX))));
         match r {
@@ -534,6 +549,7 @@ pub fn run(ctx: &Ctx) -> Outcome {
     let att = |k: u64| report.sets.get("attempts_per_call").map(|s| s.contains(&k)).unwrap_or(false);
     let floors = vec![
         floor("all fixed cases ran (11 types x 4 addresses x 0..3 failing attempts x 2 sign sides x 2 operations)", report.get("cases/configure_all_types") == 352 && report.get("cases/send_pages_all_types") == 352, report.get("cases/send_pages_all_types")),
+        floor("page lists that can be walked only once", report.get("page_lists_that_can_be_walked_only_once") > 500, report.get("page_lists_that_can_be_walked_only_once")),
         floor("page lists handed over as adaptor iterators", report.get("page_lists_passed_as_adaptor_iterators") > 1000, report.get("page_lists_passed_as_adaptor_iterators")),
         floor("multi-page transfers", report.get("multi_page_transfers") > 0, report.get("multi_page_transfers")),
         floor("calls with 1, 2 and 3 attempts", att(1) && att(2) && att(3), report.set_len("attempts_per_call")),
